@@ -42,6 +42,7 @@ type runCtx struct {
 	finalReleased      bool
 	forceReleased      bool
 	usedActions        map[string]bool
+	invariantFired     bool
 }
 
 func (r *runCtx) logf(f string, a ...any) { r.log = append(r.log, fmt.Sprintf(f, a...)) }
@@ -252,3 +253,36 @@ func statusOrNone(s datatransfer.Status, err error) string {
 
 var _ = ipld.DeepEqual
 var _ cidlink.Link
+
+// invariant is evaluated at EVERY quiescent point: the moment the initiator reports Completed (after Accept) the
+// responder must already have sent its final, un-paused Complete, and the receiver must already hold the data.
+func (r *runCtx) invariant(x *mc.Cell, rep any) {
+	if r.invariantFired {
+		return
+	}
+	iv, err := r.ini.Vec(r.chid)
+	if err != nil || iv.Status != datatransfer.Completed || !r.ini.Saw(r.chid, datatransfer.Accept) {
+		return
+	}
+	finals := 0
+	for _, s := range r.rsp.Net.Sends() {
+		if rs, ok := s.Msg.(datatransfer.Response); ok && rs.IsComplete() && !rs.IsPaused() && rs.TransferID() == r.chid.ID {
+			finals++
+		}
+	}
+	rv, rerr := r.rsp.Vec(r.chid)
+	ctx := fmt.Sprintf("%s\n  steps: %s\n  initiator: %s\n  responder: %s (err %v)", r.sc, strings.Join(r.log, " | "), iv, rv, rerr)
+	if finals == 0 {
+		r.invariantFired = true
+		x.Violate("C01", "initiator-completed-before-responders-final-complete;pull="+fmt.Sprint(r.sc.Pull)+";profile="+r.sc.Profile,
+			"the initiator reports Completed although the responder has not sent its final (un-paused) Complete\n  "+ctx, rep)
+	}
+	for _, c := range r.dag.Traversal {
+		if r.rcvStore.Get(c) == nil {
+			r.invariantFired = true
+			x.Violate("C01", "initiator-completed-before-data-arrived;pull="+fmt.Sprint(r.sc.Pull)+";profile="+r.sc.Profile,
+				fmt.Sprintf("the initiator reports Completed but block %s is not in the receiver's store\n  %s", short(c), ctx), rep)
+			break
+		}
+	}
+}
